@@ -155,7 +155,20 @@ def record_direct(sc):
         cons.update({x[0]: x[2] for x in rows})
         tr["events"].append(dict(ev="update", rows=rows, obs=project(r, idT, cons)))
     if r.finished:
-        tr["events"].append(result_event(r.extract_result(), idT))
+        res = r.extract_result()
+        post = sc.get("post")
+        if post:
+            # the sampler is used again (same n_samples, draws with ids of another range): the result handed out before must
+            # stay what it was - it is judged AFTER the later run
+            r.set_objective(sc["n"], **objective_kwargs(post))
+            for bi, ds in enumerate(post["batches"]):
+                if r.finished:
+                    break
+                ids = 900000 + np.arange(bi * bs, (bi + 1) * bs)
+                r.update(dict(d=np.array([decode(x) for x in ds], dtype=float), S1=ids + 10000.0, t1=ids / 1024.0), bi)
+            if r.finished:
+                r.extract_result()
+        tr["events"].append(result_event(res, idT))
     return tr
 
 
@@ -183,6 +196,13 @@ def record_e2e(sc):
     tm.calls.clear()
     r._rec = rec
     res = r.sample(sc["n"], bar=False, **objective_kwargs(sc))
+    if sc.get("post"):
+        # a later, longer run on the same sampler object with the same n_samples: the earlier result is judged afterwards
+        r._rec = lambda batch: None
+        calls = {k: list(v) for k, v in tm.calls.items()}
+        r.sample(sc["n"], bar=False, **objective_kwargs(sc["post"]))
+        tm.calls.clear()
+        tm.calls.update(calls)
     tr["events"].append(result_event(res, idT))
     # the operations' own record of what was simulated must agree with what was consumed
     tr["simulated_batches"] = sorted(set(b for b, _n in tm.calls.get("sim", [])))
@@ -270,6 +290,9 @@ def scenarios(ctx):
                 pv["thr"] = top
                 pv["batches"] = [[rnd.randint(0, top) for _r in range(bs)] for _b in range(pn + 2)]
             sc["prev"] = [pv]
+        if rnd.random() < 0.25:     # ... and is used again afterwards, with the same n_samples
+            sc["post"] = dict(mode="nsim", n_sim=n + rnd.randint(bs, 3 * bs))
+            sc["post"]["batches"] = [[rnd.randint(0, top) for _r in range(bs)] for _b in range(-(-sc["post"]["n_sim"] // bs))]
         out.append(sc)
     # end to end through the engine
     n_e2e = 150 if ctx.quick else 1500
@@ -295,6 +318,8 @@ def scenarios(ctx):
             pn = rnd.choice([n, rnd.randint(1, 5)])
             sc["prev"] = [rnd.choice([dict(n=pn, mode="nsim", n_sim=pn + rnd.randint(0, 2 * bs)), dict(n=pn, mode="thr", thr=max(finite)),
                                       dict(n=pn, mode="quantile", q=[1, 2])])]
+        if rnd.random() < 0.25:     # sample() is called again afterwards with the same n_samples and a larger budget
+            sc["post"] = dict(mode="nsim", n_sim=(sc.get("n_sim") or n) + len(table) * bs + rnd.randint(0, 2 * bs))
         out.append(sc)
     return out, n_ex
 
@@ -337,7 +362,7 @@ def check_scenarios(ctx, scs):
         cons = consumed_draws(tr)
         ds = [d for (_i, d) in cons]
         nontrivial = len(set(ds)) < len(ds) or any(d >= INF_CODE for d in ds)      # ties or non-finite present
-        key = (sc["kind"], sc["mode"], sc["bs"], sc["n"], tuple(ds), sc.get("thr"), sc.get("n_sim"), tuple(sc.get("q") or ()), str(sc.get("prev", "")))
+        key = (sc["kind"], sc["mode"], sc["bs"], sc["n"], tuple(ds), sc.get("thr"), sc.get("n_sim"), tuple(sc.get("q") or ()), str(sc.get("prev", "")), str(sc.get("post", "")))
         ctx.case(key, nontrivial=nontrivial)
         ctx.trace_events += len(tr["events"])
         if v["verdict"] != "ok":
